@@ -2,9 +2,12 @@
 
 from __future__ import annotations
 
+import keyword
 import logging
 import re
-from typing import TYPE_CHECKING
+from typing import TYPE_CHECKING, cast
+
+import sympy
 
 from mxlpy.meta.sympy_tools import (
     fn_to_sympy,
@@ -21,8 +24,6 @@ from mxlpy.types import InitialAssignment
 if TYPE_CHECKING:
     from collections.abc import Callable
 
-    import sympy
-
     from mxlpy.model import Model
 
 __all__ = [
@@ -33,6 +34,74 @@ __all__ = [
 ]
 
 _LOGGER = logging.getLogger(__name__)
+
+# Words a model component cannot be called in the generated code: the keywords of the
+# language and the names the generated function uses itself
+_OWN_NAMES = frozenset({"time", "variables", "model"})
+_RESERVED_PY = frozenset({*keyword.kwlist, "math", "Iterable"}) | _OWN_NAMES
+_RESERVED_TS = (
+    frozenset(
+        "abstract arguments async await boolean break byte case catch char class const "
+        "continue debugger default delete do double else enum eval export extends false "
+        "final finally float for function goto if implements import in instanceof int "
+        "interface let long native new null package private protected public return "
+        "short static super switch synchronized this throw throws transient true try "
+        "typeof var void volatile while with yield Math NaN Infinity undefined".split()
+    )
+    | _OWN_NAMES
+)
+_RESERVED_RS = (
+    frozenset(
+        "abstract as async await become box break const continue crate do dyn else enum "
+        "extern false final fn for if impl in let loop macro match mod move mut override "
+        "priv pub ref return self Self static struct super trait true try type typeof "
+        "union unsafe unsized use virtual where while yield E PI None Some Ok Err f64".split()
+    )
+    | _OWN_NAMES
+)
+_RESERVED_JL = (
+    frozenset(
+        "abstract baremodule begin break catch const continue do else elseif end export "
+        "false finally for function global if import in isa let local macro missing "
+        "module mutable nothing pi im primitive quote return struct true try type using "
+        "where while".split()
+    )
+    | _OWN_NAMES
+)
+
+
+def _identifiers(model: Model, reserved: frozenset[str]) -> dict[str, str]:
+    """Identifier to use in generated code for every component of the model.
+
+    Component names are arbitrary strings. A name that is a valid identifier and means
+    nothing else in the target language is used as it is.
+    """
+    variables = list(model.get_variable_names())
+    others = [
+        *model.get_parameter_names(),
+        *model.get_raw_derived(),
+        *model.get_raw_reactions(),
+    ]
+    used = set(reserved)
+    identifiers: dict[str, str] = {}
+
+    def assign(name: str, *, is_variable: bool) -> None:
+        base = name if name.isidentifier() else re.sub(r"\W", "_", f"_{name}")
+        ident, n = base, 0
+        while ident in used or (is_variable and f"d{ident}dt" in used):
+            n += 1
+            ident = f"{base}_{n}"
+        used.add(ident)
+        if is_variable:
+            # The name of its derivative
+            used.add(f"d{ident}dt")
+        identifiers[name] = ident
+
+    for name in variables:
+        assign(name, is_variable=True)
+    for name in others:
+        assign(name, is_variable=False)
+    return identifiers
 
 
 def _generate_model_code(
@@ -45,12 +114,26 @@ def _generate_model_code(
     sympy_inline_fn: Callable[[sympy.Expr], str],
     return_template: str,
     custom_fns: dict[str, sympy.Expr],
+    identifiers: dict[str, str],
     imports: list[str] | None = None,
     end: str | None = None,
     free_parameters: list[str] | None = None,
     single_return_suffix: str | None = None,
 ) -> str:
     source: list[str] = []
+
+    # Components whose name cannot be used as it is
+    renamed = {
+        sympy.Symbol(name): sympy.Symbol(ident)
+        for name, ident in identifiers.items()
+        if name != ident
+    }
+
+    def inline(expr: sympy.Expr) -> str:
+        if len(renamed) > 0:
+            expr = cast(sympy.Expr, expr.xreplace(renamed))
+        return sympy_inline_fn(expr)
+
     # Model components
     variables = model.get_initial_conditions()
     # Copy, otherwise removing the free parameters changes the model's cache
@@ -65,7 +148,9 @@ def _generate_model_code(
         source.append(model_fn.format(n=len(variables)))
 
     if len(variables) > 0:
-        source.append(variables_template.format(", ".join(variables)))
+        source.append(
+            variables_template.format(", ".join(identifiers[i] for i in variables))
+        )
 
     # Parameters
     if free_parameters is not None:
@@ -74,7 +159,8 @@ def _generate_model_code(
     if len(parameters) > 0:
         source.append(
             "\n".join(
-                assignment_template.format(k=k, v=v) for k, v in parameters.items()
+                assignment_template.format(k=identifiers[k], v=v)
+                for k, v in parameters.items()
             )
         )
 
@@ -88,7 +174,7 @@ def _generate_model_code(
     if len(initial_assignments) > 0:
         source.append(
             "\n".join(
-                assignment_template.format(k=k, v=v)
+                assignment_template.format(k=identifiers[k], v=v)
                 for k, v in initial_assignments.items()
             )
         )
@@ -124,7 +210,7 @@ def _generate_model_code(
             if expr is None:
                 msg = f"Unable to parse fn for reaction value '{name}'"
                 raise ValueError(msg)
-        source.append(assignment_template.format(k=name, v=sympy_inline_fn(expr)))
+        source.append(assignment_template.format(k=identifiers[name], v=inline(expr)))
 
     # Diff eqs
     diff_eqs = {}
@@ -135,7 +221,9 @@ def _generate_model_code(
     for variable, stoich in diff_eqs.items():
         expr = stoichiometries_to_sympy(origin=variable, stoichs=stoich)
         source.append(
-            assignment_template.format(k=f"d{variable}dt", v=sympy_inline_fn(expr))
+            assignment_template.format(
+                k=f"d{identifiers[variable]}dt", v=inline(expr)
+            )
         )
 
     # Surrogates
@@ -146,11 +234,15 @@ def _generate_model_code(
     # Return one derivative per variable, in the order of the variables
     if len(diff_eqs) > 0:
         source.extend(
-            assignment_template.format(k=f"d{variable}dt", v="0.0")
+            assignment_template.format(k=f"d{identifiers[variable]}dt", v="0.0")
             for variable in variables
             if variable not in diff_eqs
         )
-    ret = ", ".join(f"d{i}dt" for i in variables) if len(diff_eqs) > 0 else "()"
+    ret = (
+        ", ".join(f"d{identifiers[i]}dt" for i in variables)
+        if len(diff_eqs) > 0
+        else "()"
+    )
     if single_return_suffix is not None and len(variables) == 1 and len(diff_eqs) > 0:
         ret += single_return_suffix
     source.append(return_template.format(ret))
@@ -168,12 +260,13 @@ def generate_model_code_py(
     free_parameters: list[str] | None = None,
 ) -> str:
     """Transform the model into a python function, inlining the function calls."""
+    identifiers = _identifiers(model, _RESERVED_PY)
     if free_parameters is None:
         model_fn = (
             "def model(time: float, variables: Iterable[float]) -> Iterable[float]:"
         )
     else:
-        args = ", ".join(f"{k}: float" for k in free_parameters)
+        args = ", ".join(f"{identifiers[k]}: float" for k in free_parameters)
         model_fn = f"def model(time: float, variables: Iterable[float], {args}) -> Iterable[float]:"
 
     return _generate_model_code(
@@ -192,6 +285,7 @@ def generate_model_code_py(
         end=None,
         free_parameters=free_parameters,
         custom_fns={} if custom_fns is None else custom_fns,
+        identifiers=identifiers,
     )
 
 
@@ -201,10 +295,11 @@ def generate_model_code_ts(
     free_parameters: list[str] | None = None,
 ) -> str:
     """Transform the model into a typescript function, inlining the function calls."""
+    identifiers = _identifiers(model, _RESERVED_TS)
     if free_parameters is None:
         model_fn = "function model(time: number, variables: number[]) {"
     else:
-        args = ", ".join(f"{k}: number" for k in free_parameters)
+        args = ", ".join(f"{identifiers[k]}: number" for k in free_parameters)
         model_fn = f"function model(time: number, variables: number[], {args}) {{"
 
     return _generate_model_code(
@@ -219,6 +314,7 @@ def generate_model_code_ts(
         end="};",
         free_parameters=free_parameters,
         custom_fns={} if custom_fns is None else custom_fns,
+        identifiers=identifiers,
     )
 
 
@@ -228,10 +324,11 @@ def generate_model_code_rs(
     free_parameters: list[str] | None = None,
 ) -> str:
     """Transform the model into a rust function, inlining the function calls."""
+    identifiers = _identifiers(model, _RESERVED_RS)
     if free_parameters is None:
         model_fn = "fn model(time: f64, variables: &[f64; {n}]) -> [f64; {n}] {{"
     else:
-        args = ", ".join(f"{k}: f64" for k in free_parameters)
+        args = ", ".join(f"{identifiers[k]}: f64" for k in free_parameters)
         model_fn = f"fn model(time: f64, variables: &[f64; {{n}}], {args}) -> [f64; {{n}}] {{{{"
 
     source = _generate_model_code(
@@ -246,6 +343,7 @@ def generate_model_code_rs(
         end="}",
         free_parameters=free_parameters,
         custom_fns={} if custom_fns is None else custom_fns,
+        identifiers=identifiers,
     )
     # sympy prints pi and e as the bare constants
     if re.search(r"\b(PI|E)\b", source.split("\n", 1)[1]):
@@ -260,10 +358,11 @@ def generate_model_code_jl(
     free_parameters: list[str] | None = None,
 ) -> str:
     """Transform the model into a julia function, inlining the function calls."""
+    identifiers = _identifiers(model, _RESERVED_JL)
     if free_parameters is None:
         model_fn = "function model(time, variables)"
     else:
-        args = ", ".join(f"{k}" for k in free_parameters)
+        args = ", ".join(f"{identifiers[k]}" for k in free_parameters)
         model_fn = f"function model(time, variables, {args})"
 
     return _generate_model_code(
@@ -278,4 +377,5 @@ def generate_model_code_jl(
         end="end",
         free_parameters=free_parameters,
         custom_fns={} if custom_fns is None else custom_fns,
+        identifiers=identifiers,
     )
